@@ -9,7 +9,8 @@ def gen(rng: random.Random, tier: str):
     n = {"quick": 250, "thorough": 6000}[tier]
     for _ in range(n):
         nu, ni = rng.randint(1, 5), rng.randint(2, 9)
-        rows = [[100 + u, 1000 + i] for u in range(nu) for i in range(ni) if rng.random() < 0.4]
+        ub, ib = rng.choice([(100, 1000), (100, 1000), (0, 1000), (0, 0)])          # zero-based identifiers are identifiers like any other
+        rows = [[ub + u, ib + i] for u in range(nu) for i in range(ni) if rng.random() < 0.4]
         if not rows: continue
         items = sorted({r[1] for r in rows}); users = sorted({r[0] for r in rows})
         pool = items + [5000, 5001]
@@ -59,6 +60,7 @@ def run(case: dict, lean: Lean) -> Outcome:
         ok = real == modf and ordered
         detail.append({"query": qd, "impl": real if isinstance(real, str) else [[i, None if v is None else str(v)] for i, v in real], "model": mod})
         classes.add("query:" + kind)
+        if u == 0: classes.add("user identifier 0")
         if supplied is not None: classes.add("supplied candidates")
         if supplied is not None and set(supplied) & set(hist): classes.add("supplied includes seen item")
         if any(h not in V for h in hist) and kind in ("query_hist", "history"): classes.add("history with unknown item")
